@@ -123,12 +123,108 @@ def Run.best (r : Run α) : Option (Best α) :=
   | .adam s => some s.best
   | .rprop s => some s.best
 
+/-! ### line-search optimizers: one-step refinement check against injected harness states -/
+
+structure XSt where
+  kind : String := ""
+  ls : Nat := 2
+  numHist : Nat := 100
+  cur : Option (LSOpt Float) := none
+
+def takeN (n : Nat) (l : List Float) : List Float × List Float := (l.take n, l.drop n)
+
+/-- parse the flat `st=` field of harness/c10.cpp -/
+def parseSt (kind : String) (numHist : Nat) (t : String) : Option (LSOpt Float) := do
+  match t.splitOn "," with
+  | [] => none
+  | d :: rest =>
+    let n ← d.toNat?
+    let xs ← (rest.mapM parseBits).map (·.map Float.ofBits)
+    if xs.length < 5 * n + 3 then none else
+    let (pt, xs) := takeN n xs
+    let val := xs.headD 0; let xs := xs.drop 1
+    let (g, xs) := takeN n xs
+    let (dir, xs) := takeN n xs
+    let (lp, xs) := takeN n xs
+    let (lg, xs) := takeN n xs
+    let lv := xs.headD 0; let isl := (xs.drop 1).headD 0; let xs := xs.drop 2
+    let model ← match kind with
+      | "bfgs" => if xs.length == n * n then some (LSModel.bfgs (chunk n xs)) else none
+      | "cg" => some (LSModel.cg (xs.headD 0).toUInt64.toNat)
+      | "lbfgs" =>
+        let bd := xs.headD 0; let m := ((xs.drop 1).headD 0).toUInt64.toNat; let xs := xs.drop 2
+        if xs.length != 2 * m * n then none else
+        let S := (List.range m).map fun i => (xs.drop (i * n)).take n
+        let Y := (List.range m).map fun i => (xs.drop ((m + i) * n)).take n
+        some (LSModel.lbfgs numHist bd (List.zip S Y))
+      | _ => none
+    some { dim := n, initialStep := isl, best := ⟨pt, val⟩, derivative := g, dir := dir,
+           lastDerivative := lg, lastPoint := lp, lastValue := lv, model := model }
+
+/-- comparison of two numbers: 0 identical bits (or both zero), 1 within tolerance, 2 different -/
+def cmpNum (scale a b : Float) : Nat :=
+  if a.toBits == b.toBits || (a == 0 && b == 0) then 0
+  else if (a - b).abs ≤ 1e-9 * (1 + scale) then 1 else 2
+
+def cmpVec (a b : List Float) : Nat :=
+  if a.length != b.length then 2 else
+  let scale := (a ++ b).foldl (fun m x => if x.abs > m then x.abs else m) 0
+  (List.zipWith (cmpNum scale) a b).foldl Nat.max 0
+
+def modelNums : LSModel Float → List Float
+  | .bfgs H => H.flatten
+  | .cg c => [c.toFloat]
+  | .lbfgs _ bd hist => bd :: (hist.flatMap fun sy => sy.1 ++ sy.2)
+
+def verdict (fields : List (String × Nat)) : String :=
+  match fields.find? (·.2 == 2) with
+  | some (f, _) => s!"MISMATCH {f}"
+  | none => if fields.all (·.2 == 0) then "ok bits" else
+    "ok tol " ++ " ".intercalate ((fields.filter (·.2 == 1)).map (·.1))
+
+def xstep (o : Objective Float) (x : XSt) (h : LSOpt Float) (isInit : Bool) : String :=
+  let boxLbfgs := o.constrained && x.kind == "lbfgs"
+  if isInit then
+    let kind : LSModel Float := match x.kind with
+      | "bfgs" => .bfgs [] | "cg" => .cg 0 | _ => .lbfgs x.numHist 1 []
+    let m := LSOpt.init o kind h.best.point
+    verdict [("value", cmpNum 0 m.best.value h.best.value), ("g", cmpVec m.derivative h.derivative),
+             ("dir", cmpVec m.dir h.dir), ("isl", cmpNum 0 m.initialStep h.initialStep),
+             ("model", cmpVec (modelNums m.model) (modelNums h.model))]
+  else
+    match x.cur with
+    | none => "bad-op"
+    | some cur =>
+      -- the part of the step before computeSearchDirection
+      let after : LSOpt Float × List (String × Nat) :=
+        if x.ls == 2 then
+          let a := LSOpt.afterLineSearch backtracking o cur
+          (a, [("point", cmpVec a.best.point h.best.point), ("value", cmpNum a.best.value.abs a.best.value h.best.value),
+               ("g", cmpVec a.derivative h.derivative)])
+        else
+          -- dlinmin / wolfecubic are not modelled: adopt the reported point, but it must be consistent
+          -- with the (bit-mirrored) objective and must not be worse than the old one
+          let a := { cur with lastDerivative := cur.derivative, lastPoint := cur.best.point, lastValue := cur.best.value,
+                              best := h.best, derivative := h.derivative, initialStep := 1 }
+          (a, [("value=f(point)", cmpNum 0 (o.f h.best.point) h.best.value),
+               ("g=grad(point)", cmpVec (o.grad h.best.point) h.derivative),
+               ("no-increase", if h.best.value ≤ cur.best.value then 0 else 2)])
+      let a := after.1
+      let common := after.2 ++ [("lastPoint", cmpVec a.lastPoint h.lastPoint), ("lastDerivative", cmpVec a.lastDerivative h.lastDerivative),
+                                ("lastValue", cmpNum 0 a.lastValue h.lastValue), ("isl", cmpNum 0 a.initialStep h.initialStep)]
+      if boxLbfgs then verdict common else
+      -- direction update from the harness' own post-line-search state (no error accumulation)
+      let a' := { a with best := h.best, derivative := h.derivative }
+      let n := LSOpt.computeSearchDirection a'
+      verdict (common ++ [("dir", cmpVec n.dir h.dir), ("model", cmpVec (modelNums n.model) (modelNums h.model))])
+
 /-! ### protocol -/
 
 structure St where
   fl : Run Float := {}
   rt : Run Rat := {}
   ratOk : Bool := true     -- the Rat run is meaningful (no libm function involved)
+  x : XSt := {}
 
 def dblMax : Float := Float.ofBits 0x7FEFFFFFFFFFFFFF
 def dblMaxRat : Rat := ratOfBits 0x7FEFFFFFFFFFFFFF
@@ -184,6 +280,15 @@ def step (s : St) (line : String) : St × String :=
       | some f, some r => report { s with fl := f, rt := r, ratOk := s.fl.cfg.kind != "adam" }
       | _, _ => (s, "bad-op")
     | none => (s, "bad-op")
+  | ["xopt", kind, ls, nh] =>
+    ({ s with x := { kind := kind, ls := ls.toNat?.getD 2, numHist := nh.toNat?.getD 100, cur := none } }, "ok")
+  | [op, st] =>
+    if op != "xinit" && op != "xstep" && op != "xadopt" then (s, "bad-op") else
+    match parseSt s.x.kind s.x.numHist st with
+    | none => (s, "bad-op")
+    | some h =>
+      let out := if op == "xadopt" then "ok" else xstep s.fl.obj s.x h (op == "xinit")
+      ({ s with x := { s.x with cur := some h } }, out)
   | ["step"] =>
     report { s with fl := s.fl.step Float.sqrt fpow, rt := if s.ratOk then s.rt.step id rpow else s.rt }
   | ["save", _, _] =>
